@@ -1,6 +1,7 @@
 package engine
 
 import (
+	"regexp"
 	"go/types"
 	"encoding/json"
 	"fmt"
@@ -535,6 +536,33 @@ func RunCheck(o CheckOpts) int {
 			}
 		}
 	}
+	// a ghost update whose anchor (call site, store, return) is gone leaves the
+	// ghost variable at its initial value: assertions that read that variable
+	// cannot be trusted (the others can)
+	missingGhost := map[string][]string{}
+	if ledgerObs != nil {
+		for _, ob := range obs {
+			if ob.Kind == "anchor" && (ob.Result == "failed" || ob.Result == "unknown") {
+				if i := strings.LastIndex(ob.Name, "/"); i >= 0 && strings.HasPrefix(ob.Name[i+1:], "ghost#") {
+					if m := ghostOfClauseRe.FindStringSubmatch(ob.Clause); m != nil {
+						missingGhost[ob.Function] = append(missingGhost[ob.Function], m[1])
+					}
+				}
+			}
+		}
+	}
+	for _, ob := range obs {
+		if ob.Result != "failed" && ob.Result != "unknown" || ob.Kind == "anchor" {
+			continue
+		}
+		for _, g := range missingGhost[ob.Function] {
+			if regexp.MustCompile(`(^|[^A-Za-z0-9_.])` + regexp.QuoteMeta(g) + `($|[^A-Za-z0-9_])`).MatchString(ob.Clause) {
+				ob.Result = "undecided"
+				ob.Reason = "reads ghost variable " + g + ", whose update is anchored at an instruction that no longer exists (code restructured)"
+				break
+			}
+		}
+	}
 	for _, ob := range obs {
 		if why, ok := staleContract[ob.Function]; ok && (ob.Result == "failed" || ob.Result == "unknown") && ob.Kind != "og-schema" && ob.Kind != "anchor" {
 			ob.Result = "undecided"
@@ -689,6 +717,8 @@ func contains(xs []string, x string) bool {
 	}
 	return false
 }
+
+var ghostOfClauseRe = regexp.MustCompile(`of clause '([A-Za-z_][A-Za-z0-9_]*) [-+]?= `)
 
 func newAbstractions(ob *ObligationResult, l Ledger) []string {
 	lf, ok := l.Functions[ob.Function]
